@@ -558,6 +558,36 @@ def extref_step(case, reg, toks, t, fails):
     return True
 
 
+def extend_from_step(case, reg, toks, t, fails):
+    """`a.extend(b)`, `b` consumed: `a` keeps its own elements and gains one element of every class
+    of `b` it did not hold (`b`'s own object); `b` is empty afterwards; more distinct elements than
+    `a`'s capacity: the container's panic."""
+    a = case.state[reg]["ents"]
+    b = case.state[toks[2]]["ents"]
+    cap = case.caps[reg]
+    new = []
+    for e in b:
+        if find(a, e[0]) is None and all(x[0] != e[0] for x in new):
+            new.append(e)
+    ga, gb = t["snaps"].get(reg), t["snaps"].get(toks[2])
+    if len(a) + len(new) > cap:
+        if t["outcome"] == "ok":
+            fails.append("%s extend_from %s: %d distinct elements went into capacity %d" % (reg, toks[2], len(a) + len(new), cap))
+        return True
+    if t["outcome"] != "ok":
+        fails.append("%s extend_from %s ended %s" % (reg, toks[2], t["outcome"]))
+        return True
+    if ga is not None:
+        got = [(e[0], e[1]) for e in ga["ents"]]
+        want = [(e[0], e[1]) for e in a] + [(e[0], e[1]) for e in new]
+        if got[:len(a)] != want[:len(a)] or sorted(got) != sorted(want):
+            fails.append("%s after extend_from %s holds %s, expected its own %s plus %s" % (
+                reg, toks[2], got, want[:len(a)], want[len(a):]))
+    if gb is not None and (gb["len"] != 0 or gb["ents"]):
+        fails.append("%s is not empty after it was consumed: %s" % (toks[2], gb["ents"]))
+    return True
+
+
 def aux_step(case, reg, toks, t, fails):
     """auxiliary element shapes: `clone_plain` (destructor-free elements with a counting Clone) and
     `serde_zst` (zero-sized elements)."""
@@ -1152,6 +1182,8 @@ def run(prop, ops_path, impl_path, profile):
                             set_step(case, reg, toks, t, True, fails)
                     if (op == "clone_plain" and "clone" in fam) or (op == "serde_zst" and "serde" in fam):
                         aux_step(case, reg, toks, t, fails)
+                    if op == "extend_from" and fam & {"set", "bulk", "uniq"} and reg.startswith("s"):
+                        extend_from_step(case, reg, toks, t, fails)
                     if op == "extend_ref" and fam & {"set", "bulk", "uniq", "struct"}:
                         extref_step(case, reg, toks, t, fails)
                     if "bulk" in fam and op in ("from_iter", "extend"):
